@@ -1,16 +1,20 @@
 (* C18 - property theorems only.  Model: C18.Model (internal/targets loader.go,
-   config.go as they are: no visiting set).  resolve = Loader.Load. *)
+   config.go as they are).  resolve true = Loader.Load. *)
 From LLGoV Require Import C18.Model C18.Proofs.
 From Coq Require Import Permutation.
 Local Open Scope string_scope.
 Local Open Scope list_scope.
 
+(* resolve true = Loader.Load as it is now (with the chain of descriptions being
+   resolved, fix: report inheritance cycles); resolve false = the loader before
+   that fix, kept for the refutation at the end. *)
+
 (* Any description whose inheritance is acyclic and complete (Lin d n l holds
    exactly then, with l = concat (map lin parents) ++ [n]) resolves, for every
    fuel above the length of l, to the fold of the raw descriptions along l. *)
 Theorem resolve_eq_linearised : forall d n l fuel,
-  Lin d n l -> (fuel > List.length l)%nat -> resolve fuel d n = Ok n (fold_spec d l).
-Proof. exact resolve_lin. Qed.
+  Lin d n l -> (fuel > List.length l)%nat -> resolve true fuel d n = Ok n (fold_spec d l).
+Proof. exact resolve_fixed_lin. Qed.
 Print Assumptions resolve_eq_linearised.
 
 Theorem lin_function_sound : forall d fuel n l, lin fuel d n = Some l -> Lin d n l.
@@ -43,66 +47,80 @@ Print Assumptions bool_setting_is_any_definition.
 
 (* more fuel never changes an answer *)
 Theorem resolve_fuel_monotone : forall d n fuel fuel',
-  (fuel <= fuel')%nat -> resolve fuel d n <> OutOfFuel -> resolve fuel' d n = resolve fuel d n.
-Proof. exact load_mono. Qed.
+  (fuel <= fuel')%nat -> resolve true fuel d n <> OutOfFuel -> resolve true fuel' d n = resolve true fuel d n.
+Proof. intros d n. exact (loadv_mono d [] n). Qed.
 Print Assumptions resolve_fuel_monotone.
 
 (* the answer does not depend on the order in which the descriptions are
    stored or enumerated *)
 Theorem resolve_order_independent : forall d d' fuel n,
-  Permutation d d' -> NoDup (map fst d) -> resolve fuel d n = resolve fuel d' n.
-Proof. exact load_perm. Qed.
+  Permutation d d' -> NoDup (map fst d) -> resolve true fuel d n = resolve true fuel d' n.
+Proof. intros d d' fuel n HP ND. apply loadv_ext. now apply lookup_perm. Qed.
 Print Assumptions resolve_order_independent.
 
 (* a successful resolution implies an acyclic, complete inheritance below n *)
 Theorem ok_only_if_acyclic_and_complete : forall d fuel n n' c,
-  resolve fuel d n = Ok n' c -> n' = n /\ (exists l, Lin d n l) /\ ~ Anc d n n.
+  resolve true fuel d n = Ok n' c -> n' = n /\ (exists l, Lin d n l) /\ ~ Anc d n n.
 Proof.
-  intros d fuel n n' c E. split; [exact (load_ok_name _ _ _ _ _ E)|].
-  destruct (load_ok_lin _ _ _ _ _ E) as [l HL]. split; [eauto | exact (Lin_acyclic _ _ _ HL)].
+  intros d fuel n n' c E. split; [exact (loadv_ok_name _ _ _ _ _ _ E)|].
+  destruct (loadv_ok_lin _ _ _ _ _ _ E) as [l HL]. split; [eauto | exact (Lin_acyclic _ _ _ HL)].
 Qed.
 Print Assumptions ok_only_if_acyclic_and_complete.
 
-(* an error names a description that does not exist and is reached from n *)
+(* an error names a description reached from n that does not exist, or one
+   that lies on an inheritance cycle *)
 Theorem error_names_missing_ancestor : forall d fuel n m,
-  resolve fuel d n = ErrMissing m -> lookup d m = None /\ (m = n \/ Anc d n m).
-Proof. exact load_err_sound. Qed.
+  resolve true fuel d n = ErrMissing m -> lookup d m = None /\ (m = n \/ Anc d n m).
+Proof. intros d fuel n. exact (proj1 (loadv_err_sound d fuel [] n ltac:(intros v []))). Qed.
 Print Assumptions error_names_missing_ancestor.
 
-(* acyclic description sets (rk decreases along inherits): resolution ends, and
-   ends with an error when a description reachable from n is missing *)
-Theorem acyclic_resolution_terminates : forall d rk, ranked d rk ->
-  forall fuel n, (fuel > rk n)%nat -> resolve fuel d n <> OutOfFuel.
-Proof. exact ranked_terminates. Qed.
-Print Assumptions acyclic_resolution_terminates.
+Theorem error_names_cyclic_ancestor : forall d fuel n m,
+  resolve true fuel d n = ErrCycle m -> Anc d m m /\ (m = n \/ Anc d n m).
+Proof. intros d fuel n. exact (proj2 (loadv_err_sound d fuel [] n ltac:(intros v []))). Qed.
+Print Assumptions error_names_cyclic_ancestor.
 
-Theorem missing_parent_is_an_error : forall d rk n m fuel,
-  ranked d rk -> (m = n \/ Anc d n m) -> lookup d m = None -> (fuel > rk n)%nat ->
-  exists m', resolve fuel d n = ErrMissing m' /\ lookup d m' = None.
-Proof. exact missing_errors. Qed.
+(* Resolution ALWAYS ends - for every description set, cyclic or not - as soon
+   as the fuel exceeds the number of descriptions: never a hang, never a crash. *)
+Theorem resolution_always_terminates : forall d fuel n,
+  (fuel > List.length d)%nat -> resolve true fuel d n <> OutOfFuel.
+Proof. exact resolve_fixed_terminates. Qed.
+Print Assumptions resolution_always_terminates.
+
+(* a missing parent (anywhere below n) ends with an error *)
+Theorem missing_parent_is_an_error : forall d n m fuel,
+  (m = n \/ Anc d n m) -> lookup d m = None -> (fuel > List.length d)%nat ->
+  exists e, resolve true fuel d n = e /\
+    ((exists m', e = ErrMissing m' /\ lookup d m' = None) \/ (exists m', e = ErrCycle m' /\ Anc d m' m')).
+Proof. exact resolve_fixed_missing_error. Qed.
 Print Assumptions missing_parent_is_an_error.
 
-(* cycles.  The property asks for an error.  The code never returns a
-   configuration for a cyclic request ... *)
-Theorem cycle_never_resolved : forall d n, Anc d n n ->
-  forall fuel n' c, resolve fuel d n <> Ok n' c.
-Proof. exact cyclic_never_ok. Qed.
-Print Assumptions cycle_never_resolved.
+(* a cyclic request ends with an error: a cycle error naming a description on a
+   cycle, or - when a missing description is met first - a missing-file error *)
+Theorem cyclic_request_is_an_error : forall d n fuel,
+  Anc d n n -> (fuel > List.length d)%nat ->
+  (exists m, resolve true fuel d n = ErrCycle m /\ Anc d m m) \/
+  (exists m, resolve true fuel d n = ErrMissing m /\ lookup d m = None).
+Proof. exact resolve_fixed_cyclic_error. Qed.
+Print Assumptions cyclic_request_is_an_error.
 
-(* ... but it does not return an error either: when all descriptions exist the
-   recursion does not end, whatever the fuel (finding F12; in Go: the goroutine
-   stack overflows).  General form and the two witnesses replayed by the harness. *)
-Theorem cyclic_complete_request_never_ends : forall d n,
+Example cycle_witnesses_now_errors :
+  resolve true 3 db_self name_a = ErrCycle name_a /\ resolve true 3 db_two name_a = ErrCycle name_a.
+Proof. split; vm_compute; reflexivity. Qed.
+
+(* Before the fix (finding F12, repaired): on a cyclic request whose
+   descriptions all exist the recursion did not end, whatever the fuel - in Go
+   the goroutine stack overflowed. *)
+Theorem unfixed_cyclic_complete_request_never_ends : forall d n,
   Anc d n n -> (forall m, Anc d n m -> lookup d m <> None) ->
-  forall fuel, resolve fuel d n = OutOfFuel.
+  forall fuel, resolve false fuel d n = OutOfFuel.
 Proof. exact cyclic_closed_loops. Qed.
-Print Assumptions cyclic_complete_request_never_ends.
+Print Assumptions unfixed_cyclic_complete_request_never_ends.
 
-Theorem cycle_refuted :
-  (forall fuel, resolve fuel db_self name_a = OutOfFuel) /\
-  (forall fuel, resolve fuel db_two name_a = OutOfFuel).
+Theorem unfixed_cycle_refuted :
+  (forall fuel, resolve false fuel db_self name_a = OutOfFuel) /\
+  (forall fuel, resolve false fuel db_two name_a = OutOfFuel).
 Proof. split; [exact self_cycle_loops | exact two_cycle_loops]. Qed.
-Print Assumptions cycle_refuted.
+Print Assumptions unfixed_cycle_refuted.
 
 (* ---------- the hypotheses are satisfiable: a diamond ---------- *)
 Definition ex_db : db := [
@@ -115,7 +133,7 @@ Example ex_lin : lin 5 ex_db (bs "top") = Some [bs "base"; bs "l"; bs "base"; bs
 Proof. vm_compute. reflexivity. Qed.
 
 Example ex_resolve :
-  match resolve 6 ex_db (bs "top") with
+  match resolve true 6 ex_db (bs "top") with
   | Ok _ c => get c "cpu" KStr = VStr (bs "m0")   (* base again through r, after l: the last definition in lin wins *)
               /\ get c "cflags" KList = VList [bs "-b"; bs "-l"; bs "-b"; bs "-r"; bs "-t"]
               /\ get c "goos" KStr = VStr (bs "linux")
